@@ -293,7 +293,7 @@ ENTRIES = {
         what="dropping the receiver wakes every blocked sender on every path"),
     "mt-drop-joins": dict(
         body="<executor::mt_executor::Executor as std::ops::Drop>::drop", effect=calls(r"std::thread::JoinHandle::join$"),
-        excuse=variant_is({"None"}, r"Iterator::next$"),
+        excuse=variant_is({"None"}, r"Iterator::next$|^std::vec::Vec::pop$"),
         what="dropping the multi-threaded executor joins its workers on every path (the loop over the drained handles ends only at None)"),
     "mt-drop-aborts": dict(
         body="<executor::mt_executor::Executor as std::ops::Drop>::drop", effect=calls(r"executor::Signal::set$"),
@@ -699,6 +699,13 @@ def decision_inputs_today(P, group):
     return res, sites
 
 
+# equivalents accepted by the census: a `while let Some(x) = vec.pop()` loop empties a vector like a `drain(..)` loop does
+GROUP_EQUIV = {
+    "executor-drop": {"effect": (r"^std::vec::Vec::pop$", "drain"),
+                      "input": {"call:std::vec::Vec::pop": "call:std::iter::Iterator::next"}},
+}
+
+
 def decision_census(ctx, group, only=None):
     global _DI
     if _DI is None:
@@ -711,6 +718,20 @@ def decision_census(ctx, group, only=None):
         ctx.missing("decision-input baseline for group " + group)
         return
     today, sites = decision_inputs_today(ctx.prog, group)
+    eq = GROUP_EQUIV.get(group)
+    if eq:
+        # accepted equivalents of an enumerated effect / decision input (only for the groups listed in GROUP_EQUIV)
+        rx_e, as_name = eq["effect"]
+        brx = re.compile(COMMIT_GROUPS[group][0])
+        for b in ctx.prog.all_bodies():
+            k = "%s|%s" % (b.name, as_name)
+            if k in base and brx.search(b.name):
+                extra = [s for s in b.calls(rx_e) if b.in_loop(s)]
+                if extra:
+                    sites.setdefault(k, []).extend(extra)
+                    today.setdefault(k, set())
+        for k in list(today):
+            today[k] = set(eq["input"].get(x, x) for x in today[k])
     cnts_all = (_DI.get("__counts__") or {}).get(group, {})
     if only:
         orx = re.compile(only)
